@@ -705,7 +705,59 @@ def run_thorough(ctx):
         running = still
 
 
+def unit_far_out(ctx):
+    """The two evaluation paths far from the origin: bases with large locations / scales under SoftPlus, Exp, LeakyTanh, Affine layers, samples
+    (y up to ~1e3, where exp / expm1 of the VALUE overflow but the stable formulas do not): the log-prob returned with a sample equals
+    log_prob at that sample, and both equal base log-density at the inverse image + inverse log-det (NumPy reference written with the stable
+    formulas).  (Seeded change C03g wrote SoftPlus.inverse_and_log_det as log(expm1(y)): -inf beyond y = 709.)"""
+    L = lv.lib()
+    jnp, jr = L["jnp"], L["jr"]
+    import flowjax.bijections as B
+    import flowjax.distributions as D
+    from scipy import stats as st
+
+    u = ctx.unit("far-out-paths", "Transformed(Normal(large loc / scale), SoftPlus | Chain[Affine, SoftPlus] | Exp on small scale | LeakyTanh): sample_and_log_prob(key) vs "
+                                  "log_prob(sample) vs a NumPy reference (base log-density at the inverse image + inverse log-det), 1e-9")
+    r = ctx.rng
+    loc = np.array([2.0, 750.0, 1000.0]) + r.normal(0, 1, 3)
+    sc = np.array([1.0, 10.0, 25.0])
+
+    def sp_inv(y):   # stable softplus inverse and its log-derivative
+        return y + np.log(-np.expm1(-y)), -np.log(-np.expm1(-y))
+
+    cases = [
+        ("Transformed(Normal(loc up to 1000), SoftPlus)", D.Transformed(D.Normal(jnp.asarray(loc), jnp.asarray(sc)), B.SoftPlus((3,))),
+         lambda y: (lambda xi, ld: st.norm.logpdf(xi, loc, sc).sum() + ld.sum())(*sp_inv(y))),
+        ("Transformed(Normal(loc up to 1000), Chain[SoftPlus, Affine(1, 2)])", D.Transformed(D.Normal(jnp.asarray(loc), jnp.asarray(sc)), B.Chain([B.SoftPlus((3,)), B.Affine(jnp.ones(3), jnp.full(3, 2.0))])),
+         lambda y: (lambda xi, ld: st.norm.logpdf(xi, loc, sc).sum() + ld.sum() - 3 * np.log(2.0))(*sp_inv((y - 1.0) / 2.0))),
+        ("Transformed(Normal(loc up to 1000), LeakyTanh(3))", D.Transformed(D.Normal(jnp.asarray(loc), jnp.asarray(sc)), B.LeakyTanh(3.0, (3,))), None),
+        ("Transformed(Normal(loc up to 600, scale 5), Exp)", D.Transformed(D.Normal(jnp.asarray(loc * 0.6), jnp.asarray(sc / 5.0)), B.Exp((3,))),
+         lambda y: st.norm.logpdf(np.log(y), loc * 0.6, sc / 5.0).sum() - np.log(y).sum()),
+    ]
+    for name, d, ref in cases:
+        for rep in range(4 if ctx.quick else 20):
+            key = jr.PRNGKey(int(r.integers(0, 2**31 - 1)))
+            y, lp_s = d.sample_and_log_prob(key)
+            lp = d.log_prob(y)
+            y, lp_s, lp = np.asarray(y, dtype=float), float(lp_s), float(lp)
+            u.count((name, rep, y.tolist()), nontrivial=bool(np.max(np.abs(y)) > 100), tag=name.split("(")[0] + name.split(",")[-1])
+            errs = []
+            tol = 1e-9 * max(1.0, abs(lp_s))
+            if not (abs(lp - lp_s) <= tol):
+                errs.append(f"log_prob(sample) = {lp!r} but sample_and_log_prob returned {lp_s!r}")
+            if ref is not None and np.all(np.isfinite(y)):
+                with np.errstate(all="ignore"):
+                    rv = float(ref(y))
+                if math.isfinite(rv) and not (abs(lp - rv) <= 1e-9 * max(1.0, abs(rv))):
+                    errs.append(f"log_prob(sample) = {lp!r}, base log-density at the inverse image + inverse log-det = {rv!r}")
+            if errs:
+                ctx.violation(sig=f"far-out:{name.split('(')[0]}:{'paths' if 'sample_and_log_prob' in errs[0] else 'reference'}", what=f"{name} at sample {y.tolist()}: " + "; ".join(errs),
+                              case=dict(unit="far-out", dist=name, key=np.asarray(key).tolist(), y=y.tolist()), found_input=True, unit=u.name, expected=lp_s, observed=lp,
+                              broken="identities of the statement (both paths agree; change of variables) far from the origin")
+
+
 def run(ctx):
+    unit_far_out(ctx)
     if ctx.quick:
         unit_tie(ctx)
         unit_flows(ctx)
@@ -727,6 +779,14 @@ def replay(ctx, rep):
     L = lv.lib()
     jnp, jr = L["jnp"], L["jr"]
     c = rep["case"]
+    if c.get("unit") == "far-out":
+        ctx.rng = np.random.default_rng(np.random.PCG64(int(rep.get("seed", 0))))
+        n0 = len(ctx.violations)
+        unit_far_out(ctx)
+        hits = [v for v in ctx.violations[n0:] if v["sig"] == rep.get("sig")]
+        for v in hits:
+            print("still failing:", v["what"][:300])
+        return not hits
     if "dist" in c:
         d = ds.make_dist(c["dist"])
         t = " ".join(ds.ser_dist(d))
